@@ -223,6 +223,8 @@ impl Engine {
             for _ in 0..n + 2 { if self.step(Op::Send(Entry::Send)) == R::Ok { accepted += 1 } else { break } }
             if accepted != n && !self.model.kind.is_multi() { self.problem(format!("after everything was consumed and released the channel accepted {accepted} events, not BUFFER_SIZE = {n}")) }
             if accepted != n && self.model.kind.is_multi() && !self.strms.is_empty() { self.problem(format!("after everything was consumed and released the channel accepted {accepted} events, not BUFFER_SIZE = {n}")) }
+            // a Multi channel without listeners releases every accepted event at once: nothing may stay occupied, every send is accepted
+            if accepted != n + 2 && self.model.kind.is_multi() && self.strms.is_empty() { self.problem(format!("a Multi channel without listeners accepted only {accepted} of {} sends in a row: accepted events keep occupying storage although nobody is entitled to them", n + 2)) }
             self.drain();
         }
     }
